@@ -129,6 +129,12 @@ pub enum Step {
 	/// first step of a later generation: read everything, settle on the commit prefix
 	/// the recovery produced (must lie in params settle_lo..settle_hi), truncate the model
 	RecoverSettle,
+	/// Tripwire step: rotate the memtable and flush it, but only if the active-memtable lock
+	/// is observed free (used inside windows that, in the unchanged code, lie under that lock)
+	RotateFlushIfUnlocked,
+	/// a second, independent checkpoint (own directory, own model)
+	CheckpointB,
+	RestoreB,
 }
 
 impl Step {
